@@ -5,27 +5,17 @@
    (states only move along created -> initiated -> {closeWait -> lastAck | finWait1 -> {finWait2 |
    closing}} -> closed, with the forced / error jump to closed from anywhere), and that the
    monotone observables (closed signal, muxer state) never go back. *)
-From Hop Require Import Base Shutdown.
+From Hop Require Import Base Shutdown ShutdownEdges.
 Open Scope N_scope.
 
-Definition edge (a b : N) : bool :=
-  match a with
-  | 0 => (b =? 1) || (b =? 7)
-  | 1 => (b =? 2) || (b =? 4) || (b =? 7)
-  | 2 => (b =? 3) || (b =? 7)
-  | 3 => (b =? 7)
-  | 4 => (b =? 5) || (b =? 6) || (b =? 7)
-  | 5 => (b =? 7)
-  | 6 => (b =? 7)
-  | _ => false
-  end.
-(* reachability in at most 4 edges (the longest path has 4) *)
-Fixpoint reach (n : nat) (a b : N) : bool :=
-  (a =? b) ||
+(* the graph is Proofs/ShutdownEdges.tedge: exactly the reachable-edge relation of Shutdown.step
+   (Properties/C16.v c16_state_graph_exact); tubeState numbers are those of tubes/reliable.go *)
+Definition ts_of (n : N) : tstate :=
   match n with
-  | O => false
-  | S n' => existsb (fun c => edge a c && reach n' c b) [0;1;2;3;4;5;6;7]
+  | 0 => TCreated | 1 => TInitiated | 2 => TCloseWait | 3 => TLastAck
+  | 4 => TFinWait1 | 5 => TFinWait2 | 6 => TClosing | _ => TClosed
   end.
+Definition reach (n : nat) (a b : N) : bool := treach n (ts_of a) (ts_of b).
 
 Record smp := mkSmp { o_st : N; o_ms : N; o_sc : bool; o_rc : bool }.
 Definition dec (c : N) : smp :=
